@@ -298,6 +298,10 @@ func TestScripts(t *testing.T) {
 			tr = runRouterScript(t, line)
 		case strings.HasPrefix(line, "sw "):
 			tr = runSWScript(t, line)
+		case strings.HasPrefix(line, "rrt "):
+			tr = runRouterRT(t, line)
+		case strings.HasPrefix(line, "ort "):
+			tr = runOrderRT(t, line)
 		default:
 			tr = "bad-op"
 		}
